@@ -70,6 +70,10 @@ type NativeMacro struct {
 type Thrown struct {
 	V  val.V
 	Go string // non-empty: a Go error ("builtin", "sentinel", "unbound", "call", ...)
+	// Raw: a Go panic raised by an embedder function bound WITHOUT the reflective binder. It travels as a
+	// panic until the body of an enclosing try recovers it (from then on it is an ordinary error); what
+	// happens when it passes through a builtin, leaves a finally body or reaches the host is not defined here.
+	Raw bool
 }
 
 // AsValue is what a catch clause binds.
@@ -133,6 +137,9 @@ func (in *Interp) Run(forms []val.V) (out Outcome) {
 	for _, f := range forms {
 		v, t := in.Eval(f, in.Global)
 		if t != nil {
+			if t.Raw {
+				in.Unspecified("raw panic reaches the host")
+			}
 			return Outcome{Thrown: t}
 		}
 		last = v
@@ -406,7 +413,11 @@ func (in *Interp) Apply(f val.V, args []val.V, direct bool) (val.V, *Thrown) {
 	}
 	switch c := f.F.(type) {
 	case *Closure:
-		return in.applyClosure(c, args)
+		v, t := in.applyClosure(c, args)
+		if t != nil && t.Raw && !direct {
+			in.Unspecified("raw panic passes through a builtin")
+		}
+		return v, t
 	case *Native:
 		in.tick()
 		return c.Fn(in, args)
@@ -464,6 +475,10 @@ func (in *Interp) evalTry(ops []val.V, env *Env) (val.V, *Thrown) {
 		handler = last.L[2:]
 	}
 	v, t := in.evalBody(body, env)
+	if t != nil && t.Raw {
+		// recovered by the try body: an ordinary error from here on
+		t = &Thrown{V: t.V, Go: t.Go}
+	}
 	if t != nil && hasCatch {
 		he := NewEnv(env)
 		he.Set(catchSym, t.AsValue())
@@ -471,7 +486,9 @@ func (in *Interp) evalTry(ops []val.V, env *Env) (val.V, *Thrown) {
 	}
 	if hasFin {
 		// exactly once, in the scope of the try form, result and errors discarded
-		_, _ = in.evalBody(fin, env)
+		if _, ft := in.evalBody(fin, env); ft != nil && ft.Raw {
+			in.Unspecified("raw panic leaves a finally body")
+		}
 	}
 	if t != nil {
 		return val.V{}, t
